@@ -53,6 +53,12 @@ Theorem negotiated_coding_accepted_nonzero : forall (vals offers : list str),
   c = [] \/ c = s_identity \/ (In c offers /\ accepted_nonzero (parse_accept vals) c = true).
 Proof. exact C11_proofs.parse_then_negotiate_lemma. Qed.
 
+(* the inner loop of ParseAccept is modelled with fuel S(length s); no larger fuel changes the result,
+   i.e. the loop always ends by itself (every continuing iteration consumes a byte) *)
+Theorem parse_value_fuel_sufficient : forall (fuel : nat) (s : str), (S (List.length s) <= fuel)%nat ->
+  parse_value fuel s = parse_value (S (List.length s)) s.
+Proof. exact C11_proofs.parse_value_fuel_sufficient_lemma. Qed.
+
 Theorem refused_coding_never_selected : forall (vals offers : list str) (c : str),
   c <> s_identity -> c <> [] -> accepted_nonzero (parse_accept vals) c = false ->
   negotiate_ce (parse_accept vals) offers <> c.
